@@ -635,6 +635,41 @@ def r106(an, rep):
                 f"statements, e.g. `def f(): return 1; x = 2`) never reach the mapping and are missing from the re-encoded table")
 
 
+def r106_progress(an, rep, rule="R11.H"):
+    """The lnotab walk consumes an entry when a counter that steps through the code reaches the entry's address delta (`==`).  A table whose delta
+    the counter steps over (an odd address increment in a hand-altered co_lnotab; the counter moves by one code unit = 2 bytes) is never
+    consumed: the loop `while ... or entries remain` does not end.  There must be a way out for the overshoot: `>=` instead of `==`, or a raise under `>`."""
+    rep.rule(rule, "the lnotab walk ends for every table (an entry the walk steps over is rejected)", 1)
+    st = find_stages(an)
+    f = st["to_map"]
+    items = f.params[0]
+    cursors = {n.slice.id for n in ast.walk(f.node) if isinstance(n, ast.Subscript) and isinstance(n.value, ast.Name) and n.value.id == items and isinstance(n.slice, ast.Name)}
+    found = 0
+    for lp in ast.walk(f.node):
+        if not isinstance(lp, ast.While):
+            continue
+        for iff in ast.walk(lp):
+            if not (isinstance(iff, ast.If) and isinstance(iff.test, ast.Compare) and len(iff.test.ops) == 1 and isinstance(iff.test.ops[0], ast.Eq)):
+                continue
+            advances = any(isinstance(a, ast.AugAssign) and isinstance(a.target, ast.Name) and a.target.id in cursors for b in iff.body for a in ast.walk(b))
+            if not advances:
+                continue
+            sides = {norm_src(iff.test.left), norm_src(iff.test.comparators[0])}
+            found += 1
+            # an overshoot exit: a Raise in the same loop under a strict / non-strict order comparison of the same two quantities
+            exits = []
+            for other in ast.walk(lp):
+                if isinstance(other, ast.If) and isinstance(other.test, ast.Compare) and len(other.test.ops) == 1 and isinstance(other.test.ops[0], (ast.Gt, ast.GtE, ast.Lt, ast.LtE)) \
+                        and {norm_src(other.test.left), norm_src(other.test.comparators[0])} == sides and any(isinstance(x, ast.Raise) for b in other.body for x in ast.walk(b)):
+                    exits.append(other)
+            rep.add(rule, f"{f.qual}::an entry the walk steps over ends the walk", bool(exits), loc(f.module, iff),
+                    f"`{norm_src(exits[0].test)}` raises when the walk has passed the entry's address without meeting it" if exits else
+                    f"an entry is consumed only when `{norm_src(iff.test)}`; the left side moves in steps of one code unit, so an odd address increment (hand-altered `co_lnotab = bytes([1, 1])`) "
+                    f"is stepped over, the entry is never consumed and `while {norm_src(lp.test)[:60]}` never ends: from_code neither raises nor returns")
+    if not found:
+        raise AnalysisError(f"{f.qual}: how the walk decides to consume an entry is not recognised (no `==` test guarding the cursor)")
+
+
 def r107(an, rep):
     """Encoder mirror of R10.5: a section's line delta is taken against the last section that HAD a line - a run without a line neither
     moves nor resets the reference (CPython's assembler keeps `lineno` across -128 entries)."""
